@@ -6,13 +6,13 @@ INV = {
             'Inv_C01_PermittedIsDone', 'Inv_C01_AdoptNotSkipped'],
     'C02': ['Act_C02_RevisionMonotone', 'Inv_C02_NoTakeFromNewer', 'Inv_C02_SingleController', 'Act_C02_RevisionFixed'],
     'C03': ['Inv_C03_Gate', 'Inv_C03_FirstFailureNamed'],
-    'C04': ['Inv_C04_ReverseOrder', 'Inv_C04_FinalizerHeld', 'Inv_C04_ArchivedFalseUntilDone'],
+    'C04': ['Inv_C04_ReverseOrder', 'Inv_C04_FinalizerHeld', 'Inv_C04_ArchivedFalseUntilDone', 'Inv_C04_NothingControlledWhenReleased'],
     'C05': ['Inv_C05_DeleteOnlyController', 'Inv_C05_StoreEnforces', 'Inv_C05_DeletedWasControlled', 'Inv_C05_CoOwned',
             'Inv_C05_ForeignUntouched', 'Inv_C05_Orphan'],
     'C06': ['Inv_C06_AvailableJustified', 'Inv_C06_ControllerOf', 'Inv_C06_SucceededWhenAvailable', 'Act_C06_SucceededSticky',
             'Inv_C06_InTransition', 'Inv_C06_Archived', 'Inv_C06_ArchivedNotReconciled'],
     'C09': ['Inv_C09_NoWritesWhilePaused', 'Inv_C09_StillReports'],
-    'C11': ['Inv_C11_PhaseAllOrNothing', 'Inv_C11_Scope', 'Inv_C11_Reported'],
+    'C11': ['Inv_C11_PhaseAllOrNothing', 'Inv_C11_Scope', 'Inv_C11_Reported', 'Inv_C11_NoWriteIfViolating', 'Inv_C11_ViolationReported'],
     'C19': ['Inv_C19_NoPanic'],
 }
 
@@ -146,8 +146,62 @@ def jobs_c01(tier, seed):
     ]
 
 
+HANDOVER = 'handover-2rev,handover-3rev,delegated-handover,local-to-delegated,rolledout-handover'
+ROLLOUT = 'single-2phase,single-3phase,delegated-mixed,sliced,rolledout-delegated,paused-start'
+TEARDOWN = 'rolledout-2phase,rolledout-delegated,rolledout-handover,single-2phase,delegated-mixed,handover-2rev,sliced'
+EVERY = ''
+
+
+def sched_jobs(specs):
+    def f(tier, seed):
+        q = tier == 'quick'
+        out = []
+        for (name, scen, profile, mode, nq, nt, steps) in specs:
+            out.append(rnd(name, scen, profile, mode, nq if q else nt, steps, seed, 4 if q else 14))
+        return out
+    return f
+
+
+ASSUME = ['in-memory API server model (spec/Store.tla semantics, harness/sim/store.go)',
+          'dynamic cache modelled as consistent label-filtered view; manager cache consistent unless lag is enabled',
+          'schedules are sampled (seeded), not exhaustive']
+
+NOT_APPLICABLE = {}
+
+TECH = 'TLA+ trace validation with TLC: traces of the real controllers vs. spec/TraceObs.tla invariants'
+LEVEL_TEXT = ('Every API request the real controllers issue in seeded schedules / table rows is recorded and TLC evaluates the '
+              'property invariants of the TLA+ trace specification on every state; violations are properties of real executions. '
+              'Bounded: schedules and rows are sampled (quick) or enumerated to the stated bound (thorough).')
+LEVEL_NOTE = ('Trusted: the in-memory API server model (harness/sim/store.go = spec Store semantics), the projection function, TLC. '
+              'Not covered: schedules/inputs outside the drivers\' bounds, real informer/watch timing.')
+
 CHECKS = {
     'C01': dict(level='model_checking', invariants=INV['C01'], jobs=jobs_c01,
                 assumptions=['in-memory API server model (spec/Store.tla semantics, harness/sim/store.go)',
                              'third party acts between reconciles (pass-atomic schedules) as the statement quantifies']),
+    'C02': dict(level='model_checking', invariants=INV['C02'], assumptions=ASSUME, jobs=sched_jobs([
+        ('handover-atomic', HANDOVER, 'handover', 'atomic', 160, 3000, 70)])),
+    'C03': dict(level='model_checking', invariants=INV['C03'], assumptions=ASSUME, jobs=sched_jobs([
+        ('rollout-atomic', ROLLOUT + ',' + HANDOVER, 'rollout', 'atomic', 120, 2000, 70),
+        ('rollout-api', ROLLOUT + ',' + HANDOVER, 'rollout', 'api', 120, 2000, 120)])),
+    'C04': dict(level='model_checking', invariants=INV['C04'], assumptions=ASSUME, jobs=sched_jobs([
+        ('teardown-atomic', TEARDOWN, 'teardown', 'atomic', 120, 2000, 70),
+        ('teardown-api', TEARDOWN, 'teardown', 'api', 120, 2000, 140)])),
+    'C05': dict(level='model_checking', invariants=INV['C05'], assumptions=ASSUME, jobs=sched_jobs([
+        ('race-api', TEARDOWN, 'race', 'api', 200, 3000, 140),
+        ('teardown-atomic', TEARDOWN, 'teardown', 'atomic', 80, 1000, 70)])),
+    'C06': dict(level='model_checking', invariants=INV['C06'], assumptions=ASSUME, jobs=sched_jobs([
+        ('all-atomic', ROLLOUT + ',' + TEARDOWN, 'all', 'atomic', 120, 2000, 80),
+        ('all-api', ROLLOUT + ',' + TEARDOWN, 'all', 'api', 120, 2000, 150)])),
+    'C09': dict(level='model_checking', invariants=INV['C09'], assumptions=ASSUME, jobs=sched_jobs([
+        ('pause-atomic', ROLLOUT + ',' + HANDOVER + ',collision', 'pause', 'atomic', 120, 2000, 80),
+        ('pause-api', ROLLOUT + ',' + HANDOVER + ',collision', 'pause', 'api', 120, 2000, 150)])),
+    'C11': dict(level='model_checking', invariants=INV['C11'], assumptions=ASSUME, jobs=lambda tier, seed: [
+        dict(name='preflight-table', shards=8 if tier == 'quick' else 14,
+             driver=['preflight-table', '-n', '1500' if tier == 'quick' else '0', '-seed', str(seed)])]),
 }
+
+for _pid, _cd in CHECKS.items():
+    _cd.setdefault('level_text', LEVEL_TEXT)
+    _cd.setdefault('level_note', LEVEL_NOTE)
+    _cd.setdefault('technique', TECH)
